@@ -58,6 +58,12 @@ MUTANTS = {
         ('getxattr-count-as-value', S, "            Ok(GetxattrReply::Count(count)) => {\n                let out = GetxattrOut {\n                    size: count,", "            Ok(GetxattrReply::Count(count)) => {\n                let out = GetxattrOut {\n                    size: count + 1,"),
     ],
     'C04': [
+        ('fdw-space-check-ge', 'src/transport/fusedev/mod.rs', "        if sz > self.available_bytes() {", "        if sz >= self.available_bytes() {"),
+        ('fdw-write-vectored-skips-short-slices', 'src/transport/fusedev/mod.rs', "filter(|b| !b.is_empty())", "filter(|b| b.len() > 1)"),
+        ('fdw-write-vectored-no-upfront-check', 'src/transport/fusedev/mod.rs', "self.check_available_space(bufs.iter().fold(0, |acc, x| acc + x.len()))?;", "self.check_available_space(0)?;"),
+        ('fdw-account-twice', 'src/transport/fusedev/mod.rs', "let new_len = self.buf.len() + count;", "let new_len = self.buf.len() + count + count;"),
+        ('fdw-split-child-whole-capacity', 'src/transport/fusedev/mod.rs', "let cap2 = self.buf.capacity() - offset;", "let cap2 = self.buf.capacity();"),
+        ('fdw-split-child-overlaps', 'src/transport/fusedev/mod.rs', "Vec::from_raw_parts(ptr.add(offset), len2, cap2)", "Vec::from_raw_parts(ptr.add(len1), len2, cap2)"),
         ('split-at-absolute-offset', T, "other.push_front(front.offset(rem).map_err(Error::VolatileMemoryError)?);", "other.push_front(front.offset(offset).map_err(Error::VolatileMemoryError)?);"),
         ('split-at-short-head', T, ".push_back(front.subslice(0, rem).map_err(Error::VolatileMemoryError)?);", ".push_back(front.subslice(0, rem - 1).map_err(Error::VolatileMemoryError)?);"),
         ('allocate-offers-whole-buffer', T, "FileVolatileSlice::from_volatile_slice(&buf.subslice(0, rem).unwrap())", "FileVolatileSlice::from_volatile_slice(buf)"),
@@ -94,6 +100,11 @@ MUTANTS = {
         ('async-write-owner-wrong-flags-word', 'src/api/server/async_io.rs', "let owner = if fuse_flags & WRITE_LOCKOWNER != 0 {", "let owner = if flags & WRITE_LOCKOWNER != 0 {"),
         ('async-no-id-remap', 'src/api/server/async_io.rs', "        self.remap_ctx_ids(&mut ctx)?;\n", "\n"),
         ('async-enosys-as-einval', 'src/api/server/async_io.rs', "ctx.async_reply_error(io::Error::from_raw_os_error(libc::ENOSYS))", "ctx.async_reply_error(io::Error::from_raw_os_error(libc::EINVAL))"),
+        ('async-arc-fsyncdir-to-fsync', 'src/api/filesystem/async_io.rs', "        self.deref().async_fsyncdir(ctx, inode, datasync, handle)", "        self.deref().async_fsync(ctx, inode, datasync, handle)"),
+        ('async-arc-getattr-drops-handle', 'src/api/filesystem/async_io.rs', "        self.deref().async_getattr(ctx, inode, handle)", "        self.deref().async_getattr(ctx, inode, None)"),
+        ('async-vfs-setattr-ids-not-inward', 'src/api/vfs/async_io.rs', "                self.remap_attr_id(idata.fs_idx(), false, &mut attr);\n                fs.async_setattr", "                fs.async_setattr"),
+        ('async-vfs-fsync-to-fsyncdir', 'src/api/vfs/async_io.rs', "(Right(fs), idata) => fs.async_fsync(ctx, idata.ino(), datasync, handle).await,", "(Right(fs), idata) => fs.async_fsyncdir(ctx, idata.ino(), datasync, handle).await,"),
+        ('async-write-from-at-window-at-start', 'src/transport/fusedev/mod.rs', "FileVolatileBuf::from_raw_ptr(self.buf.as_mut_ptr().add(self.buf.len()), 0, count)", "FileVolatileBuf::from_raw_ptr(self.buf.as_mut_ptr(), 0, count)"),
         ('async-commit-ungated', 'src/transport/fusedev/mod.rs', "        pub async fn async_commit(&mut self, other: Option<&Writer<'a, S>>) -> io::Result<usize> {\n            if !self.buffered {\n                return Ok(0);\n            }\n", "        pub async fn async_commit(&mut self, other: Option<&Writer<'a, S>>) -> io::Result<usize> {\n"),
     ],
     'C15': [
@@ -109,6 +120,15 @@ MUTANTS = {
         ('lookup-no-reprobe-under-lock', 'src/passthrough/mod.rs', 'match InodeMap::get_alt_locked(inodes.deref(), &id, handle_opt.as_ref()) {\n                Some(data) => {', 'match None::<Arc<InodeData>> {\n                Some(data) => {'),
         ('lookup-no-increment', 'src/passthrough/mod.rs', 'let new = curr.saturating_add(1);', 'let new = curr;'),
         ('forget-remove-at-le-1', 'src/passthrough/mod.rs', "                    if new == 0 {", "                    if new <= 1 {"),
+    ],
+    'C19': [
+        ('restore-swaps-int-ext', 'src/api/vfs/mod.rs', ".map(|m| m.map(|s| (s.internal_id, s.external_id, s.range)))", ".map(|m| m.map(|s| (s.external_id, s.internal_id, s.range)))"),
+        ('restore-next-super-plus1', 'src/api/vfs/mod.rs', "self.next_super.store(state.next_super, Ordering::SeqCst);", "self.next_super.store(state.next_super.wrapping_add(1), Ordering::SeqCst);"),
+        ('restore-inverts-no-open', 'src/api/vfs/mod.rs', "                no_open: state.no_open,", "                no_open: !state.no_open,"),
+        ('restore-mount-fresh-index', 'src/api/vfs/mod.rs', "        let _guard = self.lock.lock().unwrap();\n        self.insert_mount_locked(fs, entry, fs_idx, path)\n    }", "        let _guard = self.lock.lock().unwrap();\n        let fs_idx = self.allocate_fs_idx()?;\n        self.insert_mount_locked(fs, entry, fs_idx, path)\n    }"),
+        ('v1-default-wrong-length', 'src/api/vfs/mod.rs', "            vec![None; super::MAX_VFS_INDEX]", "            vec![None; super::MAX_VFS_INDEX - 1]"),
+        ('pseudo-restore-loses-next-inode', 'src/api/pseudo_fs.rs', "            self.next_inode.store(state.next_inode, Ordering::Relaxed);\n", "\n"),
+        ('pseudo-restore-child-under-root', 'src/api/pseudo_fs.rs', "let parent = inode_map.get_mut(&inode.parent).ok_or_else(|| {", "let parent = inode_map.get_mut(&ROOT_ID).ok_or_else(|| {"),
     ],
     'C06x': [],
     'C07': [
